@@ -145,6 +145,7 @@ def _readcode(case, d):
     dt = np.dtype(case['dtype'])
     stored = distinct_values(dt, n, rng).astype(dt).reshape(shape)
     a = darr.asarray(path, stored, accessmode='r+')
+    basepath = 'sub/arr.darr'
     if case['seed'] % 3 == 0:
         # a handle opened through a RELATIVE path (abspath=True must still give the absolute file)
         del a
@@ -159,14 +160,19 @@ def _readcode(case, d):
         path = os.path.join(sub, 'deep', 'arr.darr')
         os.makedirs(os.path.join(d, 'arr.darr'))         # what a lexical normalisation would point at
         a = darr.Array(os.path.join(d, 'cur', '..', 'arr.darr'), accessmode='r+')
+        basepath = 'cur/../arr.darr'                     # a base path through the link: to be used as it is
+    else:
+        # ... or a base path with non-ASCII characters in it
+        os.symlink(sub, os.path.join(d, 'mesures_donn\u00e9es'))
+        basepath = 'mesures_donn\u00e9es/arr.darr'
     nt, bo = dtype_info(a.dtype)
-    out = dict(numtype=nt, byteorder=bo, shape=list(a.shape), absdir=os.path.realpath(path),
+    out = dict(numtype=nt, byteorder=bo, shape=list(a.shape), absdir=os.path.realpath(path), basepath=basepath,
                languages=list(a.readcodelanguages), all_languages=sorted(readcodefunc.keys()))
     codes = {}
     for lang in sorted(readcodefunc.keys()):
         codes[lang] = {}
         for mode in MODES:
-            kw = dict(rel={}, base=dict(basepath='sub/arr.darr'), abs=dict(abspath=True),
+            kw = dict(rel={}, base=dict(basepath=basepath), abs=dict(abspath=True),
                       both=dict(abspath=True, basepath='zzz'))[mode]
             try:
                 codes[lang][mode] = a.readcode(lang, **kw)
@@ -183,8 +189,6 @@ def _readcode(case, d):
                 if code is None or code.startswith('!!raised'):
                     fails.append(dict(lang=lang, mode=mode, kind='listed-but-withheld', detail=str(code)[:200]))
                     continue
-                if mode == 'base' and not os.path.isdir(os.path.join(d, 'sub', 'arr.darr')):
-                    continue                 # the array was moved for the symlink variant: basepath text only
                 cwd = dict(rel=path, base=d, abs='/', both='/')[mode]     # absolute paths must work from anywhere
                 kind, detail = evaluate(lang, code, cwd, path, stored)
                 ran += 1
